@@ -65,10 +65,37 @@ func c03Prefix(r *vfRand) string {
 		bits = a.BitLen()
 	case 2:
 		bits = a.BitLen() - 1 - r.Intn(9)
+	case 3:
+		// the lengths at which the two families meet (an IPv6 /32 is not a
+		// single address) and the usual allocation sizes
+		if a.Is4() {
+			bits = vfPick(r, []int{8, 16, 24, 31, 32})
+		} else {
+			bits = vfPick(r, []int{31, 32, 33, 48, 64, 127, 128})
+		}
 	default:
 		bits = r.Intn(a.BitLen() + 1)
 	}
 	return fmt.Sprintf("%s/%d", a, bits)
+}
+
+// c03Inside draws an address of the prefix other than its base address
+// (host bits drawn over the whole host part), or, one time in five, the
+// nearest address outside (the last network bit flipped).
+func c03Inside(r *vfRand, p netip.Prefix) netip.Addr {
+	b := p.Masked().Addr().AsSlice()
+	total := len(b) * 8
+	flip := func(i int) { b[i/8] ^= byte(0x80 >> (i % 8)) }
+	if p.Bits() > 0 && r.Chance(1, 5) {
+		flip(p.Bits() - 1)
+	}
+	if host := total - p.Bits(); host > 0 {
+		for k, n := 0, 1+r.Intn(3); k < n; k++ {
+			flip(p.Bits() + r.Intn(host))
+		}
+	}
+	a, _ := netip.AddrFromSlice(b)
+	return a
 }
 
 func c03Entry(r *vfRand) string {
@@ -520,6 +547,20 @@ func TestVerifC03(t *testing.T) {
 		if strings.HasPrefix(c03RuleKind(rule, ip, id, list), "(RkNet") {
 			classes = append(classes, "decided-by-cidr")
 		}
+		for _, e := range list {
+			// a member of a listed IPv6 network that is not its base address
+			// (an IPv6 /32 is a network, not a single address)
+			p, perr := netip.ParsePrefix(e)
+			if perr != nil || !p.Addr().Is6() || !ip.IsValid() || !p.Contains(ip.WithZone("")) {
+				continue
+			}
+			if ip.WithZone("") != p.Masked().Addr() || p.Bits() == 128 {
+				switch p.Bits() {
+				case 31, 32, 33, 64, 128:
+					classes = append(classes, fmt.Sprintf("v6-cidr-%d-member", p.Bits()))
+				}
+			}
+		}
 		if c03RuleKind(rule, ip, id, list) == "RkCid" && c03Listed(list, netip.Addr{}, id) {
 			classes = append(classes, "decided-by-clientid")
 			for _, e := range list {
@@ -575,6 +616,17 @@ func TestVerifC03(t *testing.T) {
 	decide([]string{"10.0.0.1/31"}, nil, ip("10.0.0.2"), "x1")
 	decide([]string{"kid"}, nil, netip.Addr{}, "")
 	decide(nil, []string{"kid"}, netip.Addr{}, "kid")
+	// IPv6 networks of the lengths around 32 (the length of a single IPv4
+	// address), members other than the base address, both sides
+	for _, n := range []string{"2001:db8::/31", "2001:db8::/32", "2001:db8::/33", "2001:db8:0:1::/64", "2001:db8::5/128"} {
+		for _, c := range []string{"2001:db8::", "2001:db8::5", "2001:db8:0:1::5", "2001:db8:0:1:8000::", "2001:db8:1::5", "2001:db8:8000::1", "2001:db9::1", "2001:dba::1"} {
+			decide(nil, []string{n}, ip(c), "")
+			decide([]string{n}, nil, ip(c), "")
+		}
+	}
+	decide(nil, []string{"10.0.0.7/32"}, ip("10.0.0.7"), "")
+	decide(nil, []string{"10.0.0.7/32"}, ip("10.0.0.6"), "")
+	decide(nil, []string{"::ffff:10.0.0.7/128"}, ip("10.0.0.7"), "")
 
 	nDecide := out.Scale(1500, 30000)
 	for i := 0; i < nDecide; i++ {
@@ -602,9 +654,13 @@ func TestVerifC03(t *testing.T) {
 					if x, err := netip.ParseAddr(e); err == nil {
 						a = x
 					} else if p, perr := netip.ParsePrefix(e); perr == nil {
-						b := p.Masked().Addr().AsSlice()
-						b[len(b)-1] ^= byte(rnd.Intn(4))
-						a, _ = netip.AddrFromSlice(b)
+						if rnd.Bool() {
+							b := p.Masked().Addr().AsSlice()
+							b[len(b)-1] ^= byte(rnd.Intn(4))
+							a, _ = netip.AddrFromSlice(b)
+						} else {
+							a = c03Inside(rnd, p)
+						}
 					} else {
 						id = strings.ToLower(e)
 					}
